@@ -47,6 +47,16 @@ CONC_TB = ["sequentially consistent interleaving of the atomic / lock operations
            "the cfg(prometheus_verif) sync shim and the scheduler (harness/src/sched.rs) decide what 'the same schedule' means"]
 
 PROPS = {
+    "C04": dict(
+        module="Prom.Props.C04",
+        areas=[dict(area="text", quick=1500, thorough=60000, oracle_prefixes=["text parse"])],
+        rule="case = 1-3 hand-built families (as a custom collector may supply) of all five MetricTypes, 0-3 samples, 0-3 labels, help / label values from an escape-heavy alphabet "
+             "(backslash, quote, LF, CR, NUL, multi-byte characters, U+10FFFF, a literal backslash-n, structural characters), every f64 class (+-0, subnormal, 2^53+-1, >2^63, max, +-Inf, NaN payloads), "
+             "0-4 buckets with/without explicit +Inf, 0-3 quantiles, timestamps 0/+/-, pre-filled output buffers, slot/type mismatches and counts above 2^53 (the last three outside the round-trip's well-formedness); "
+             "non-trivial = a well-formed case with at least one escaped character; distinct by request text",
+        trusted=["f64::to_string (Rust std) is a parameter of the theorems; its hypotheses (reads back to the same value under the exact decimal reader, no LF/quote/backslash/blank) are checked by the driver for every value of every request",
+                 "the Lean text-format reader is the specification of 'parseable' (written independently of the encoder model, mirroring the reference parser's treatment of escapes and blanks)"],
+    ),
     "C01": dict(
         module="Prom.Props.C01",
         areas=[dict(area="catomc", quick=1500, thorough=80000, classes=["not-linearizable", "stuck", "harness-panic"]),
